@@ -25,6 +25,8 @@ Lemma ttoks_group x : ttoks (EGroup x) = TT_StartGroup :: ttoks x ++ [TT_EndGrou
 Proof. unfold ttoks. cbn [aprint map]. rewrite ttoks_app. reflexivity. Qed.
 Lemma ttoks_nested lbl b : ttoks (ENested lbl b) = TT_StartExpression :: W :: ttoks b ++ [W; TT_EndExpression].
 Proof. unfold ttoks. cbn [aprint map]. rewrite ttoks_app. reflexivity. Qed.
+Lemma ttoks_reapply x : ttoks (EReapply x) = TT_Reapply :: W :: ttoks x.
+Proof. reflexivity. Qed.
 Lemma ttoks_space l r : ttoks (EList Space l r) = ttoks l ++ W :: ttoks r.
 Proof. unfold ttoks. cbn [aprint]. rewrite !ttoks_app. reflexivity. Qed.
 
@@ -48,6 +50,8 @@ Lemma ntoks_group x : ntoks (EGroup x) = S (ntoks x + 1).
 Proof. rewrite <- !ntoks_ttoks, ttoks_group. cbn [length]. rewrite app_length. reflexivity. Qed.
 Lemma ntoks_nested lbl b : ntoks (ENested lbl b) = S (S (ntoks b + 2)).
 Proof. rewrite <- !ntoks_ttoks, ttoks_nested. cbn [length]. rewrite app_length. reflexivity. Qed.
+Lemma ntoks_reapply x : ntoks (EReapply x) = 2 + ntoks x.
+Proof. rewrite <- !ntoks_ttoks, ttoks_reapply. reflexivity. Qed.
 Lemma ntoks_space l r : ntoks (EList Space l r) = ntoks l + S (ntoks r).
 Proof. rewrite <- !ntoks_ttoks, ttoks_space, app_length. reflexivity. Qed.
 Lemma ntoks_binary e t l r : as_binary e = Some (Some t, l, r) -> ntoks e = ntoks l + (3 + ntoks r).
@@ -152,6 +156,7 @@ Fixpoint lastk (e : expr) : tok_kind :=
   | EUn o x => if is_prefix o then lastk x else KSuffix
   | EGroup _ => KClose BRound
   | ENested _ _ => KClose BCurly
+  | EReapply x => lastk x
   | EBin _ _ r | EAnd _ r | EOr _ r | EList _ _ r | ECond _ _ r | EElse _ r => lastk r
   | _ => KValue
   end.
@@ -183,6 +188,7 @@ Inductive shape (e : expr) : Type :=
 | ShSuf o x : e = EUn o x -> is_prefix o = false -> shape e
 | ShGroup x : e = EGroup x -> shape e
 | ShNested lbl b : e = ENested lbl b -> shape e
+| ShReapply x : e = EReapply x -> shape e
 | ShSpace l r : e = EList Space l r -> shape e
 | ShBin t l r : as_binary e = Some (Some t, l, r) -> shape e.
 
@@ -201,6 +207,7 @@ Proof.
   - eapply ShBin. reflexivity.
   - eapply ShBin. reflexivity.
   - eapply ShNested. reflexivity.
+  - eapply ShReapply. reflexivity.
 Qed.
 
 Lemma eitems_binary e t l r off : as_binary e = Some (Some t, l, r) ->
@@ -236,7 +243,7 @@ Proof.
     = option_map (fun R => leadl prev sp ++ eitems y i ++ R) (items_of rest (i + ntoks y) (Some (lastk y)) false)).
   { intros y Hy. apply IHn. lia. }
   clear IHn Hn.
-  intros F rest i prev sp. destruct (shape_of lvl e F) as [El Hi _ (t & Ht & Hk & Hd)|o x -> Ho|o x -> Ho|x ->|lbl b ->|l r ->|t l r Hb].
+  intros F rest i prev sp. destruct (shape_of lvl e F) as [El Hi _ (t & Ht & Hk & Hd)|o x -> Ho|o x -> Ho|x ->|lbl b ->|x ->|l r ->|t l r Hb].
   - (* atom *)
     rewrite Ht. cbn [app]. rewrite (items_value _ _ _ _ _ Hk), Hi, Hd.
     assert (En : ntoks e = 1) by (rewrite <- ntoks_ttoks, Ht; reflexivity).
@@ -272,6 +279,14 @@ Proof.
     replace (S (S (S (S i) + ntoks b))) with (i + S (S (ntoks b + 2))) by lia.
     replace (S (S (S i) + ntoks b)) with (i + 3 + ntoks b) by lia. replace (S (S i)) with (i + 2) by lia.
     apply option_map_ext. intros R. cbn [leadl ends_value_k andb app]. rewrite <- !app_assoc. reflexivity.
+  - (* re-apply: a prefix operator *)
+    cbn [efrag] in F. apply andb_true_iff in F. destruct F as [_ F]. rewrite ttoks_reapply. cbn [app].
+    rewrite (items_prefix TT_Reapply _ _ _ _ eq_refl), items_space.
+    rewrite (IH x ltac:(cbn [size]; lia) F).
+    rewrite option_map_map. cbn [lastk eitems]. rewrite ntoks_reapply.
+    replace (S (S i) + ntoks x) with (i + (2 + ntoks x)) by lia.
+    replace (S (S i)) with (i + 2) by lia.
+    apply option_map_ext. intros R. cbn [leadl ends_value_k andb app]. reflexivity.
   - (* space list *)
     cbn [efrag] in F. apply andb_true_iff in F. destruct F as [F Fr]. apply andb_true_iff in F. destruct F as [_ Fl].
     rewrite ttoks_space, <- app_assoc. rewrite (IH l ltac:(cbn [size]; lia) Fl).
@@ -336,4 +351,5 @@ Proof.
   - match goal with |- _ <= ntoks ?E => rewrite (ntoks_binary E _ _ _ eq_refl) end; cbn [eitems]; rewrite app_length; cbn [length].
     pose proof (IHe1 off ltac:(assumption)). pose proof (IHe2 (off + ntoks e1 + 3) ltac:(assumption)). lia.
   - cbn [eitems]. rewrite ntoks_nested. cbn [length]. rewrite app_length. cbn [length]. pose proof (IHe (off + 2) ltac:(assumption)). lia.
+  - cbn [eitems]. rewrite ntoks_reapply. cbn [length]. pose proof (IHe (off + 2) ltac:(assumption)). lia.
 Qed.
